@@ -12,7 +12,7 @@
    place in osmjson). *)
 From Coq Require Import ZArith List String Ascii Bool Permutation.
 From Verif Require Import C05.Json C05.Schema C05.Model C05.Fmt C05.Osm C05.Spec C05.SortTags
-     C05.Fields C05.ProofsGeneric C05.Resolve C05.ProofsOsm C05.ProofsDoc C05.ProofsShape C05.ProofsLegacy C05.Codec C05.CodecGeneric.
+     C05.Fields C05.ProofsGeneric C05.Resolve C05.ProofsOsm C05.ProofsDoc C05.ProofsChange C05.ProofsShape C05.ProofsLegacy C05.Codec C05.CodecGeneric.
 From VerifGen Require Import GenJsonTags.
 Import ListNotations.
 Open Scope string_scope.
@@ -108,6 +108,30 @@ Proof.
   split; [exact H1|]. eexists. split; [exact H3|exact H4].
 Qed.
 Print Assumptions C05_roundtrip_with_duplicate_tag_keys_refuted.
+
+Definition ex_osm_c : osmv :=
+  mkOsm "" "g" "" "" "" None
+    [VStruct [VUnit; VInt 1; VFloat 515 1; VFloat 0 0; VStr ""; VInt 0; VBool true; VInt 0; VInt 0;
+              VTime zero_time; VList [mk_tag ("b", "y"); mk_tag ("a", "x")]; VNone]] [] [] [] [] [].
+
+(* 2d. osm.Change (change.go: default struct coding, the create/modify/delete blocks going
+      through OSM.MarshalJSON / OSM.UnmarshalJSON): round trip for every Change whose blocks are
+      well-formed, every codec map order, up to the same equivalence per block *)
+Theorem C05_change_roundtrip : forall mo, (forall l, Permutation (mo l) l) ->
+  forall c, wf_change c ->
+  exists c', change_unmarshal (change_marshal mo c) = Ok c' /\ change_equiv c' c.
+Proof. exact change_roundtrip. Qed.
+Print Assumptions C05_change_roundtrip.
+
+Example ex_change :
+  wf_change (mkChange "0.6" "" "" "" "" (Some ex_osm_c) None (Some empty_osm)) /\
+  exists c', change_unmarshal (change_marshal std (mkChange "0.6" "" "" "" "" (Some ex_osm_c) None (Some empty_osm))) = Ok c'
+             /\ c_modify c' = None /\ c_delete c' = Some empty_osm.
+Proof.
+  split.
+  - repeat split; intros o E; simpl in E; try discriminate E; injection E as <-; vm_compute; reflexivity.
+  - eexists. split; [vm_compute; reflexivity|split; reflexivity].
+Qed.
 
 (* 3. json_shape: the output is osmjson — an "elements" array (never null) of objects each
       carrying its type from the osmjson vocabulary, tags a JSON object of strings, way nodes an
